@@ -7,6 +7,7 @@
   tables (Obligations/C06Row39.lean).  Helper lemmas: Gzx/Proofs/Row39Read.lean, Row39Code93.lean, …
 -/
 import Gzx.Proofs.Row39Code93
+import Gzx.Proofs.Row39Code39
 import Gzx.Properties.C03
 namespace Gzx.Properties.C03Row39
 open Gzx Gzx.OneD Gzx.Row39
@@ -101,5 +102,124 @@ example : (code93Modules refTables [65]).map (fun m => c93DecodeRow refTables (p
     .ok (.ok ⟨[65], 9, 81⟩) := by decide +kernel
 example : (code93Modules refTables [97, 126]).map (fun m => c93DecodeRow refTables (paddedRow 2 3 1 m)) =
     .ok (.ok ⟨[97, 126], 31, 409⟩) := by decide +kernel
+
+/-! ## Code 39 -/
+
+/-- the symbol characters the Code 39 writer model chooses are alphabet indices -/
+theorem code39Symbols_lt (T : Tables) (contents syms : List Nat) (h : code39Symbols T contents = .ok syms) :
+    ∀ i ∈ syms, i < T.code39Alphabet.length := by
+  unfold code39Symbols at h
+  simp only [bind, Except.bind, pure, Except.pure, throw, throwThe, MonadExceptOf.throw] at h
+  split at h
+  · cases h
+  · by_cases hall : contents.all (fun c => (CheckDigit.indexOf? c T.code39Alphabet).isSome) = true
+    · simp only [hall, if_true] at h
+      exact (mapM_alphaIndex_spec T.code39Alphabet contents syms h).1
+    · have hall' : contents.all (fun c => (CheckDigit.indexOf? c T.code39Alphabet).isSome) = false := by
+        simpa using hall
+      simp only [hall', Bool.false_eq_true, if_false] at h
+      cases he : code39Escape contents with
+      | error e => rw [he] at h; cases h
+      | ok e =>
+        rw [he] at h
+        simp only [] at h
+        split at h
+        · cases h
+        · exact (mapM_alphaIndex_spec T.code39Alphabet e syms h).1
+
+/-- Clause "Code 39 incl. full-ASCII … is read by the matching reader as exactly that content", on the pixel-level
+    row decoder: for EVERY table set satisfying the decidable `WF39Row`, every non-empty ASCII content the writer
+    model accepts (plain when all characters are alphabet characters, full-ASCII escapes otherwise, read with the
+    matching reader mode, no check digit), every scale `1 ≤ s ≤ 2^31-1` and ANY left and right quiet zone of white
+    pixels (also none: the reader's 50 % white tests look at most to the row's ends),
+    `code39FindAsteriskPattern` with its white test, the character loop (`RecordPattern`,
+    `code39ToNarrowWidePattern`, `patternToChar`), the trailing white test and `decodeExtended` return exactly the
+    content, with result points at the middle of the start and of the stop character.
+    (`s ≤ 2^31-1`: the literal `math.MaxInt32` in the classifier; cf. `code39_classifier_needs_bound`.) -/
+theorem code39_row_read_write (T : Tables) (hT : WF39Row T = true) (contents : List Nat) (mods : List Bool)
+    (hne : contents ≠ []) (hascii : ∀ c ∈ contents, c < 128) (h : code39Modules T contents = .ok mods)
+    (lq s rq : Nat) (hs : 0 < s) (hs31 : s ≤ 2147483647) :
+    c39DecodeRow T false (!(contents.all (fun c => (CheckDigit.indexOf? c T.code39Alphabet).isSome)))
+        (paddedRow lq s rq mods) =
+      .ok ⟨contents, 2 * lq + 12 * s, 2 * (lq + s * (mods.length - 12)) + 12 * s⟩ := by
+  have f := wf39Facts T hT
+  unfold code39Modules at h
+  simp only [bind, Except.bind] at h
+  split at h
+  · cases h
+  · rename_i syms hsy
+    have hread := Properties.C03.code39_read_write T contents syms hne hascii hsy
+    have hlt : ∀ i ∈ syms, i < 43 := by
+      intro i hi
+      have := code39Symbols_lt T contents syms hsy i hi
+      rw [f.alphaLen] at this
+      exact this
+    rw [code39Draw_runs T f syms hlt] at h
+    cases h
+    have hstar := f.star
+    have hwl : ∀ e, (code39Widths e).length = 9 := widths_len
+    have hpos1 : ∀ e, word39Ok e = true → ∀ w ∈ code39Widths e, 0 < w := by
+      intro e he w hw
+      have := (word39_facts 1 e (by omega) (by omega) he).2.2 (1 * w) (List.mem_map.mpr ⟨w, hw, rfl⟩)
+      omega
+    have hodd : (symbol39 T syms).length % 2 = 1 := by
+      have hev : (syms.map (fun i => code39Widths (enc39 T i) ++ [1])).flatten.length % 2 = 0 := by
+        apply flatten_length_even
+        intro p hp
+        obtain ⟨i, _, rfl⟩ := List.mem_map.mp hp
+        simp [widths_len]
+      simp only [symbol39, List.length_append, hwl, List.length_cons, List.length_nil]
+      omega
+    have hpos : ∀ w ∈ symbol39 T syms, 0 < w := by
+      intro w hw
+      simp only [symbol39, List.mem_append, List.mem_cons, List.not_mem_nil, or_false, List.mem_flatten,
+        List.mem_map] at hw
+      rcases hw with (x | x) | ⟨l, ⟨i, hi, rfl⟩, x⟩ | x
+      · exact hpos1 _ hstar w x
+      · omega
+      · rcases List.mem_append.mp x with y | y
+        · exact hpos1 _ (f.word i (hlt i hi)) w y
+        · simp at y; omega
+      · exact hpos1 _ hstar w x
+    obtain ⟨hrow, hoff, hlen⟩ := paddedRow_rowAt _ lq s rq hs hodd hpos
+    have hwhite : ∀ a, a ≤ lq → isRangeWhite (paddedRow lq s rq (appendPattern (symbol39 T syms) true)) a lq = true := by
+      intro a ha
+      unfold paddedRow
+      rw [List.append_assoc]
+      exact isRangeWhite_prefix lq _ a lq ha (Nat.le_refl _)
+    rw [c39DecodeRow_core T f s hs hs31 syms hlt false _ _ lq rq hrow hoff hwhite,
+      c39Finish_symbols T f syms hlt _ contents hread]
+    simp only []
+    -- the right point in terms of the module count: 13·(n+1) + 12 modules, the stop character starts at 13·(n+1)
+    have hml : (appendPattern (symbol39 T syms) true).length = 13 * (syms.length + 1) + 12 := by
+      rw [length_appendPattern]
+      have h12 : ∀ e, word39Ok e = true → sumL (code39Widths e) = 12 := by
+        intro e he
+        have := (word39_facts 1 e (by omega) (by omega) he).2.1
+        rw [sumL_scale] at this; omega
+      have hfl : ∀ (idx : List Nat), (∀ i ∈ idx, i < 43) →
+          sumL (idx.map (fun i => code39Widths (enc39 T i) ++ [1])).flatten = 13 * idx.length := by
+        intro idx
+        induction idx with
+        | nil => intro _; simp [sumL_nil]
+        | cons i idx ih =>
+          intro hh
+          simp only [List.map_cons, List.flatten_cons, sumL_append, sumL_cons, sumL_nil, List.length_cons]
+          rw [h12 _ (f.word i (hh i (by simp))), ih (fun j hj => hh j (by simp [hj]))]
+          omega
+      simp only [symbol39, sumL_append, sumL_cons, sumL_nil, h12 _ hstar, hfl syms hlt]
+      omega
+    rw [hml]
+    generalize syms.length = n
+    have e1 : 13 * (n + 1) + 12 - 12 = 13 * n + 13 := by omega
+    have e2 : s * (13 * n + 13) = 13 * s + 13 * s * n := by
+      rw [Nat.mul_add, Nat.mul_comm s 13, ← Nat.mul_assoc, Nat.mul_comm s 13]; omega
+    rw [e1, e2, Nat.add_assoc]
+
+/-- non-vacuity and tie to the writer model: "A" (plain) and "a" (full ASCII "+A", extended reader) -/
+example : (code39Modules refTables [65]).map (fun m => c39DecodeRow refTables false false (paddedRow 0 1 0 m)) =
+    .ok (.ok ⟨[65], 12, 64⟩) := by decide +kernel
+example : (code39Modules refTables [97]).map (fun m => c39DecodeRow refTables false true (paddedRow 3 2 5 m)) =
+    .ok (.ok ⟨[97], 30, 186⟩) := by decide +kernel
 
 end Gzx.Properties.C03Row39
